@@ -271,6 +271,7 @@ Definition check_composed (l : list sexp) : sexp :=
             | Some F, Some VS, Some ES, Some raw, Some W, Some obs =>
                 if negb (ExeA.ArgHyps.type_names_okb ES && cost_schema_accepted ES) then v_bad "schema-hypotheses-do-not-hold"
                 else if negb (schemas_agree VS ES) then v_bad "schema-encodings-disagree"
+                else if negb (es_wf ES) then v_bad "eschema-not-well-formed"
                 else if negb (vschema_hypotheses VS) then v_bad "vschema-hypotheses-do-not-hold"
                 else if negb (parsed_positions_ok bs) then v_oracle_fail "stage-contract-broken:parser-positions-not-distinct" []
                 else
